@@ -58,7 +58,13 @@ def _member(draw):
         beh.pop(draw(st.sampled_from(used)))
     elif variant == "extra":
         beh["q"] = float(draw(st.sampled_from(DY)))
-    return {"kind": "member", "terms": terms, "beh": beh, "place": place, "variant": variant}
+    scheme = draw(st.sampled_from(["plain", "plain", "plain", "prefix", "symbols", "shapes"]))
+    if scheme != "plain":
+        # unusual variable names (prefixes of one another, look-alikes of numbers and symbols, underscores / long names)
+        m = gens.NAME_SCHEMES[scheme]
+        terms = gens.rename_terms(terms, m)
+        beh = {m.get(k, k): v for k, v in beh.items()}
+    return {"kind": "member", "terms": terms, "beh": beh, "place": place, "variant": variant, "names": scheme}
 
 
 @st.composite
